@@ -31,6 +31,7 @@ CT = 'commands::test'
 EC = 'rules::eval_context'
 
 UNITS = {
+    'U-join-probe': dict(functions='probe', cls='probe', quick=reg('rules::functions::strings', ['k_join_011', 'k_join_111']), thorough=[], assumptions=[], timeout=900, mem_gb=10),
     'U-unary-special': dict(functions='eval::unary_operation, result-set branch (`%v empty` / filter emptiness); record_unary_clause stubbed (not on this path)',
                             cls='bounded (one value of kind Int / Null / UnResolved, empty selection); complete in operator-not x prefix-not',
                             quick=reg('rules::eval', ['k_unsp_empty_int', 'k_unsp_empty_unres', 'k_unsp_empty_nosel', 'k_unsp_empty_null']), thorough=[],
